@@ -82,6 +82,14 @@ def run(ctx):
             recs = [("%s_acc%05d" % (pre, rng.randrange(1000) * 100 + k), q[:L0] if k < max(2, len(recs) // 2) else q) for k, (nm, q) in enumerate(recs)]
             ctx.count("long_common_prefix_names")
             longnames = True
+        if i % 7 == 4 and not longnames:
+            # FASTA headers with free-text descriptions, one of them quoting the signature of another format: whichever record stands first, the
+            # file is a FASTA file
+            sig = rng.choice(["exported from MSF: 74 Type: P", "from a CLUSTAL W (1.83) run", "CLUSTAL O(1.2.4) multiple sequence alignment", "!!AA_MULTIPLE_ALIGNMENT 1.0"])
+            ks = rng.randrange(len(recs))
+            recs = [("%s %s" % (nm, sig if k == ks else rng.choice(["hypothetical protein", "fragment", "strain K12", "partial cds"])), q) for k, (nm, q) in enumerate(recs)]
+            ctx.count("described_headers_with_signature")
+            longnames = True          # FASTA output, names are whole header lines
         highnames = False
         if i % 7 == 1 and not longnames:
             # names in which bytes >= 0x80 occur (Latin-1 / UTF-8 text in FASTA headers) and which agree up to the first such byte, on sequences of
